@@ -211,8 +211,25 @@ class C20:
             if c < 0.45:
                 members = rng.choice(pool)
                 warn = rng.random() < 0.8
-                b.emit('spheres', {'members': members, 'warn': warn},
-                       store='sc', tags={'k': 'construct', 'overlapwarn': True})
+                h_ = b.emit('spheres', {'members': members, 'warn': warn},
+                            store='sc',
+                            tags={'k': 'construct', 'overlapwarn': True})
+                if rng.random() < 0.25:
+                    # the collection moved as a whole: a copy is made; if its
+                    # owner disabled the overlap warning it stays disabled
+                    if rng.random() < 0.5:
+                        b.emit('translated', {
+                            'sc': h_, 'vec': [rfloat(rng, -3, 3, 3)
+                                              for _ in range(3)],
+                            'as_three': rng.random() < 0.5},
+                            tags={'k': 'moved', 'moved': True,
+                                  'src_warn': warn})
+                    else:
+                        b.emit('rotated', {
+                            'sc': h_, 'angles': [rfloat(rng, 0, 3, 3)
+                                                 for _ in range(3)]},
+                            tags={'k': 'moved', 'moved': True,
+                                  'src_warn': warn})
             elif c < 0.52:
                 b.emit('emit_warning', {
                     'kind': rng.choice(['user', 'perf', 'dep', 'runtime']),
@@ -378,6 +395,18 @@ class C20:
                             'C20.reject', ev['id'],
                             'a refused %s nevertheless changed the collection'
                             % op, sig='C20.reject:%s:changed' % op))
+                continue
+            if tags.get('moved'):
+                if rec['outcome'] == 'ok' and not tags.get('src_warn'):
+                    ex.stats['oracle_sim'] += 1
+                    got = sum(1 for w in rec.get('warnings', [])
+                              if w[0] == 'OverlapWarning')
+                    if got:
+                        ex.add(violation(
+                            'C20.warning', ev['id'],
+                            '%s of a collection built with warn=False '
+                            'emitted %d OverlapWarning(s)' % (op, got),
+                            sig='C20.warning:moved'))
                 continue
             if op == 'spheres' and tags.get('overlapwarn'):
                 if rec['outcome'] != 'ok':
